@@ -169,6 +169,18 @@ class ModuleTaint:
                             if cn and cn not in self.containers:
                                 self.containers.add(cn)
                                 changed = True
+                    if isinstance(n, ast.Call) and isinstance(n.func, ast.Name) and n.func.id in self.defs:
+                        # an element handed to a helper function of the module (`_next(i, x)`): the helper's parameter holds it
+                        for d in self.defs[n.func.id]:
+                            ps = [a.arg for a in d.args.posonlyargs + d.args.args]
+                            for k, a in enumerate(n.args):
+                                if k < len(ps) and self.is_elem(a, loc) and ps[k] not in self.local[id(d)]:
+                                    self.local[id(d)].add(ps[k])
+                                    changed = True
+                            for kw in n.keywords:
+                                if kw.arg in ps and self.is_elem(kw.value, loc) and kw.arg not in self.local[id(d)]:
+                                    self.local[id(d)].add(kw.arg)
+                                    changed = True
 
     def sites(self):
         """(function, line, kind, expression, is_element) for every condition-like use in element-handling functions"""
